@@ -12,7 +12,7 @@ LEVEL = "exploration"
 RULE = ("Hypothesis-generated abstract commit DAGs (1-9 commits: linear extension, branches, two-parent merges incl. criss-cross; "
         "HEAD on any commit, attached or detached) materialised with git plumbing; 1-3 experiments with 0-5 recorded versions "
         "whose commit is on HEAD's ancestry / HEAD / off the ancestry / NULL / a well-formed hash unknown to the repository and "
-        "whose timestamps are free (so 'newest' and 'closest' disagree; ties forced); git mode none/disabled/no-commits/normal; "
+        "whose timestamps are free (so 'newest' and 'closest' disagree; ties forced); git mode none/none without a git executable on the PATH/disabled/no-commits/normal; "
         "flags none/--again/--this-commit/--at-least X with X a full or abbreviated hash, branch, lightweight or annotated tag, non-ancestor "
         "commit or garbage, plus illegal combinations. Oracle = independent selection function on the ABSTRACT DAG (reflexive "
         "ancestor sets; distance = |reach(HEAD) minus reach(v)|), never asking git. Observed: `cond where`, `cond where -p`, spawn set "
@@ -23,7 +23,7 @@ ASSUMPTIONS = ["'number of separating commits' means what `git rev-list --count 
                "grafted/shallow histories are outside the domain"]
 ESSENTIAL = ["merge_in_ancestry", "tie_same_commit", "only_null", "null_plus_foreign", "unknown_hash",
              "detached_head", "at_least_equal", "at_least_strict_ancestor", "at_least_annotated_tag", "at_least_unrelated_branch", "git_disabled",
-             "empty_repo", "no_repo", "again", "newest_is_not_closest", "illegal_flag_combo"]
+             "empty_repo", "no_repo", "no_git_executable", "again", "newest_is_not_closest", "illegal_flag_combo"]
 TECHNIQUE = "property-based testing (Hypothesis): generated commit DAGs materialised with real git, independent selection model on the abstract DAG"
 LEVEL_TEXT = ("Randomised search over commit graphs x version rows x flags; every observable that reports the selected version is "
               "compared with a model that never consults git. Search, not proof.")
@@ -34,7 +34,8 @@ UNKNOWN = "0123456789abcdef0123456789abcdef01234567"
 
 @st.composite
 def _case(draw, tier):
-    mode = draw(st.sampled_from(["normal"] * 8 + ["none", "disabled", "empty"]))
+    # none_nogit: no repository AND no git executable on the PATH (a slim container, a compute node)
+    mode = draw(st.sampled_from(["normal"] * 8 + ["none", "disabled", "empty", "none_nogit"]))
     n = draw(st.sampled_from([1, 2, 3, 4, 5, 6, 7, 8, 9])) if mode in ("normal", "disabled") else 0
     commits = []
     for i in range(n):
@@ -153,6 +154,9 @@ def _run(case, root):
         labels.add("empty_repo")
     else:
         labels.add("no_repo")
+        if mode == "none_nogit":
+            labels.add("no_git_executable")
+    env = {"PATH": "/nonexistent-bin"} if mode == "none_nogit" else None
     if case["detached"] and mode == "normal":
         labels.add("detached_head")
 
@@ -206,7 +210,7 @@ def _run(case, root):
     # 1. cond where for every experiment (plain and -p)
     for e in range(nexp):
         for extra in ([], ["-p"]):
-            res = run_cond(root, ["where", "//:e%d" % e] + extra)
+            res = run_cond(root, ["where", "//:e%d" % e] + extra, env=env)
             out = res["stdout"].decode().strip()
             if sel[e] is None:
                 if res["status"] != 1 or "ERROR:" not in res["stderr"].decode("utf-8", "replace"):
@@ -263,7 +267,7 @@ def _run(case, root):
             labels.add("at_least_unrelated_branch")
         else:
             at_least = c
-    res = run_cond(root, argv, kspec={"clock": 5000.0, "files": {"*": {"ok": [["done", "x"]]}}})
+    res = run_cond(root, argv, kspec={"clock": 5000.0, "files": {"*": {"ok": [["done", "x"]]}}}, env=env)
     err = res["stderr"].decode("utf-8", "replace")
     spawns = {e["task"]: e for e in res["events"] if e["e"] == "spawn"}
     nspawn = {}
